@@ -5,6 +5,9 @@
 // write transaction turns older than MAX_COMMIT_DELAY at exactly one of the three store accesses of `put` (prefixes_of, remove_prefix_filtered,
 // entry_put; emulated by moving `since` of the open transaction back, the real `tables`/`modify`/`put` run unchanged); at each placement the
 // database file is imaged without commit, reopened, and must show either the state before the insert or the state after it.
+// Second part: every history of up to 3 (thorough: 4) steps over {insert, new author, list_namespaces, list_authors, get_many, set policy, register peer}
+// followed by flush: a crash image taken right after the flush reopens and holds every acknowledged write. Third part: remove_replica with the
+// transaction at five distances from the commit age: every crash image shows the whole document or none of it.
 #[cfg(test)]
 mod verif_rp_c06_commit_placement {
     use super::*;
@@ -84,6 +87,101 @@ mod verif_rp_c06_commit_placement {
             let seen = keys_of(&mut reopened, ns);
             assert!(seen == before || seen == after,
                 "WITNESS insert of key \"a/\" over durable children a/1, a/2 with the write transaction turning older than MAX_COMMIT_DELAY before store access {at} of put (1 prefixes_of, 2 remove_prefix_filtered, 3 entry_put): crash image shows {seen:?}, which is neither the state before the insert {before:?} nor the state after it {after:?}");
+        }
+    }
+
+    /// "Everything a file-backed store has acknowledged before a flush is present after the process is killed at any later moment":
+    /// every history of up to 4 steps over {insert, import author, list_namespaces, list_authors, get_many, set policy, register peer}
+    /// followed by `flush`; the database file is imaged right after the flush (no clean shutdown), reopened, and must show every
+    /// acknowledged write. A second image is taken after a removal split across an aged transaction (remove_replica must be all or nothing).
+    #[test]
+    fn a_crash_image_after_flush_holds_every_acknowledged_write() {
+        let mut rng = rand::rng();
+        let nss = NamespaceSecret::new(&mut rng);
+        let ns = nss.id();
+        const OPS: usize = 7;
+        let deep = std::env::var("VERIF_BX_DEPTH").map(|v| v == "thorough").unwrap_or(false);
+        let len = if deep { 4 } else { 3 };
+        let mut seqs: Vec<Vec<usize>> = vec![vec![]];
+        for _ in 0..len { let mut next = vec![]; for s in &seqs { for o in 0..OPS { let mut t = s.clone(); t.push(o); next.push(t); } } seqs.extend(next.clone()); seqs.sort(); seqs.dedup(); }
+        let mut n = 0usize;
+        for seq in seqs.iter().filter(|s| !s.is_empty()) {
+            let dir = tempfile::tempdir().unwrap();
+            let path = dir.path().join("docs.redb");
+            let mut store = Store::persistent(&path).unwrap();
+            store.import_namespace(nss.clone().into()).unwrap();
+            let author = store.new_author(&mut rng).unwrap();
+            store.flush().unwrap();
+            let mut keys: Vec<String> = vec![];
+            let mut authors = vec![author.id()];
+            let mut policy_set = false;
+            let mut peers = 0usize;
+            for (i, op) in seq.iter().enumerate() {
+                match op {
+                    0 => { let k = format!("k{i}"); let mut r = store.open_replica(&ns).unwrap();
+                           tokio::runtime::Builder::new_current_thread().build().unwrap().block_on(r.hash_and_insert(&k, &author, k.as_bytes())).unwrap(); drop(r); store.close_replica(ns); keys.push(k); }
+                    1 => { let a = store.new_author(&mut rng).unwrap(); authors.push(a.id()); }
+                    2 => { let _ = store.list_namespaces().unwrap().count(); }
+                    3 => { let _ = store.list_authors().unwrap().count(); }
+                    4 => { let _ = store.get_many(ns, Query::all()).unwrap().count(); }
+                    5 => { store.set_download_policy(&ns, crate::store::DownloadPolicy::NothingExcept(vec![crate::store::FilterKind::Exact("x".into())])).unwrap(); policy_set = true; }
+                    _ => { store.register_useful_peer(ns, [i as u8 + 1; 32]).unwrap(); peers += 1; }
+                }
+            }
+            store.flush().unwrap();
+            // the process is killed right here: image the file without dropping the store first
+            let image = dir.path().join("image.redb");
+            std::fs::copy(&path, &image).unwrap();
+            let mut reopened = Store::persistent(&image).unwrap_or_else(|e| panic!("WITNESS the crash image taken after flush (history {seq:?}) does not reopen: {e:#}"));
+            let mut got = keys_of(&mut reopened, ns);
+            got.sort(); keys.sort();
+            assert_eq!(got, keys, "WITNESS after history {seq:?} + flush, the crash image holds entries {got:?}, acknowledged were {keys:?}");
+            let mut got_authors: Vec<_> = reopened.list_authors().unwrap().map(|a| a.unwrap().id()).collect();
+            got_authors.sort(); authors.sort();
+            assert_eq!(got_authors, authors, "WITNESS after history {seq:?} + flush, the crash image lacks acknowledged authors");
+            let pol = reopened.get_download_policy(&ns).unwrap();
+            assert_eq!(matches!(pol, crate::store::DownloadPolicy::NothingExcept(_)), policy_set, "WITNESS after history {seq:?} + flush, the crash image has policy {pol:?}");
+            let got_peers = reopened.get_sync_peers(&ns).unwrap().map(|it| it.count()).unwrap_or(0);
+            assert_eq!(got_peers, peers.min(5), "WITNESS after history {seq:?} + flush, the crash image has {got_peers} useful peers, registered {peers}");
+            n += 1;
+        }
+        println!("c06_commit_placement: {n} histories followed by flush and a crash image");
+    }
+
+    /// `remove_replica` with the open write transaction turning too old at any store access inside it: every crash image shows the whole
+    /// document (entries, heads, capability, policy, peers) or none of it.
+    #[test]
+    fn no_crash_image_shows_a_half_removed_document() {
+        let mut rng = rand::rng();
+        let nss = NamespaceSecret::new(&mut rng);
+        let ns = nss.id();
+        for margin_us in [0u64, 50, 200, 1000, 5000] {
+            let dir = tempfile::tempdir().unwrap();
+            let path = dir.path().join("docs.redb");
+            let mut store = Store::persistent(&path).unwrap();
+            store.import_namespace(nss.clone().into()).unwrap();
+            let author = store.new_author(&mut rng).unwrap();
+            { let mut r = store.open_replica(&ns).unwrap();
+              for i in 0..300 { tokio::runtime::Builder::new_current_thread().build().unwrap().block_on(r.hash_and_insert(format!("k{i:03}"), &author, b"v")).unwrap(); } }
+            store.close_replica(ns);
+            store.register_useful_peer(ns, [7u8; 32]).unwrap();
+            store.flush().unwrap();
+            // touch the store so that a write transaction is open, then make it almost too old
+            store.register_useful_peer(ns, [8u8; 32]).unwrap();
+            if let CurrentTransaction::Write(w) = &mut store.transaction {
+                w.since = w.since.checked_sub(crate::actor::MAX_COMMIT_DELAY).and_then(|t| t.checked_add(std::time::Duration::from_micros(margin_us))).expect("clock");
+            }
+            store.remove_replica(&ns).unwrap();
+            let image = dir.path().join("image.redb");
+            std::fs::copy(&path, &image).unwrap();
+            let mut reopened = Store::persistent(&image).unwrap();
+            let listed = reopened.list_namespaces().unwrap().any(|x| x.unwrap().0 == ns);
+            let entries = reopened.get_many(ns, Query::all()).map(|it| it.count()).unwrap_or(0);
+            let heads = reopened.get_latest_for_each_author(ns).unwrap().count();
+            let peers = reopened.get_sync_peers(&ns).unwrap().map(|it| it.count()).unwrap_or(0);
+            let whole = listed && entries == 300 && heads == 1 && peers >= 1;
+            let none = !listed && entries == 0 && heads == 0 && peers == 0;
+            assert!(whole || none, "WITNESS crash image during remove_replica (transaction {margin_us} us short of the commit age): listed={listed} entries={entries} heads={heads} peers={peers} - neither the whole document nor none of it");
         }
     }
 }
